@@ -578,9 +578,16 @@ func (x ExtendedReport) Marshal() ([]byte, error) {
 		if wireSize(p)%4 != 0 {
 			return []byte{}, errBadLength
 		}
+		// the block length field counts 32-bit words minus one in 16 bits
+		if wireSize(p) > maxPacketLength {
+			return []byte{}, errPacketTooLong
+		}
 	}
 
 	length := wireSize(x)
+	if length+headerLength > maxPacketLength {
+		return []byte{}, errPacketTooLong
+	}
 
 	// RTCP Header
 	header := Header{
